@@ -69,11 +69,6 @@ theorem prep_spec {s s' : St} {H : List (Nat × Nat)} (prev : Option Nat) (o : P
   have hshape' := (pickShape_map_engIdx s.locks ps
     (fun p => (s1.ensEng.getD (p.ens + 1).toNat []).map (fun k => (k, (idx.lookup k).getD 0)))).mpr hshape
   refine ⟨?_, ⟨?_, ?_, rfl⟩, hshape', rfl, ha1.toinitiate, ha1.workers, ?_, ?_⟩
-  rotate_left 2
-  · intro p' hp'
-    simp only [List.mem_map] at hp'
-    obtain ⟨p, hp, rfl⟩ := hp'
-    exact hge p hp
   · show Core _ (heldPicked (ps.map _) ++ H) _
     rw [heldPicked_map_engIdx]
     have := hc1.congr (s' := { s1 with occ := occ' }) ⟨rfl, rfl, rfl, rfl, rfl⟩
@@ -82,6 +77,10 @@ theorem prep_spec {s s' : St} {H : List (Nat × Nat)} (prev : Option Nat) (o : P
   · rcases hshape' with h1 | h2
     · exact Or.inl h1
     · exact Or.inr h2.1
+  · intro p' hp'
+    simp only [List.mem_map] at hp'
+    obtain ⟨p, hp, rfl⟩ := hp'
+    exact hge p hp
   · intro k i x hx hne hpn
     rw [← ha1.occ] at hx
     exact he1 k i x hx hne hpn
